@@ -47,7 +47,7 @@ ASSUMPTIONS.append(
     "[i, j] of the two N x N normal arrays feeds the coefficient of grid frequency [i, j]); if the library requests "
     "another layout the clause is not claimed (stat hfbig_layout_changed_not_claimed). The full-operator cases "
     "(N <= 34) make no such assumption")
-ENGINES = ["E1-product-enumeration", "E2-basis-exhaustion", "E5-environment-answers"]
+ENGINES = ["E1-product-enumeration", "E2-basis-exhaustion", "E5-environment-answers", "E4-schedule-exploration"]
 
 TOL = 1e-10
 TOL_SCALE = 1e-12
@@ -88,12 +88,13 @@ def cases(tier):
             yield Case("sh:N=%d:%s" % (N, tag), {"kind": "sh", "N": N, "t": t})
     for N in _ladder(tier):
         yield Case("ladder:N=%d" % N, {"kind": "ladder", "N": N})
-    for N in (4, 8):
+    for N in ((4, 8, 32) if tier == "quick" else (4, 8, 16, 32, 48, 64)):      # (band- or block-wise drawing starts at some size)
         yield Case("intseed:N=%d" % N, {"kind": "intseed", "N": N})
     # boundary values of the outer scale ("all L0"): infinite (pure Kolmogorov) and astronomically large
     for L0 in (float("inf"), 1e12, 1e100):
         t = (0.1, 0.2, L0, 0.01)
         yield Case("ft:N=6:%s" % ("d=%g,r0=%g,L0=%g,l0=%g" % t), {"kind": "ft", "N": 6, "t": t, "plain_only": True})
+        yield Case("sh:N=6:%s" % ("d=%g,r0=%g,L0=%g,l0=%g" % t), {"kind": "sh", "N": 6, "t": t})
     # an accelerated transform passed in by the caller (FFT=...) must give the same screens as the default path
     for N in (4, 8):
         yield Case("fftarg:N=%d" % N, {"kind": "fftarg", "N": N})
@@ -112,6 +113,7 @@ def cases(tier):
     # amplitude ~ r0^(-5/6) over nine decades of r0, and the other parameters over wide ladders
     for fn in ("ft", "ftsh"):
         yield Case("r0ladder:%s" % fn, {"kind": "r0ladder", "fn": fn})
+        yield Case("preempt:%s" % fn, {"kind": "preempt", "fn": fn})
     for lo in range(2, top + 1, 32):
         yield Case("dc:N=%d-%d" % (lo, min(lo + 30, top)), {"kind": "dc", "lo": lo, "hi": min(lo + 30, top)})
 
@@ -183,6 +185,8 @@ def evaluate(p):
         return _hfbig_case(o, ps, p["N"])
     if p["kind"] == "r0ladder":
         return _r0ladder_case(o, ps, p["fn"])
+    if p["kind"] == "preempt":
+        return _preempt_case(o, ps, p["fn"])
     N, t = p["N"], p["t"]
     delta, r0, L0, l0 = t
     n2 = N * N
@@ -235,7 +239,13 @@ def evaluate(p):
     dy, dx = y[:, None] - y[None, :], x[:, None] - x[None, :]
     sep = numpy.sqrt(dy ** 2 + dx ** 2)
     if N * delta < L0:
-        Dvk = vk_cov.structure_function(sep * delta, r0, L0)
+        if L0 > 1e6 * N * delta:
+            # outer scale astronomically larger than the screen: the analytic curve is its Kolmogorov limit
+            # 6.88 (r/r0)^(5/3), from which the von Karman curve differs by less than (r/L0)^(1/3) < 1e-2 relative
+            # (the reference's Bessel form loses all digits there)
+            Dvk = 6.88 * (sep * delta / r0) ** (5.0 / 3.0)
+        else:
+            Dvk = vk_cov.structure_function(sep * delta, r0, L0)
         far = sep >= N / 4.0
         gain = numpy.abs(Dh - Dvk) - numpy.abs(Ds - Dvk)       # must be > 0
         worst = float(numpy.min(gain[far] / Dvk[far]))
@@ -431,6 +441,35 @@ def _hfbig_case(o, ps, N):
                     detail="frequency index (%d, %d) of an N=%d grid (centre %d)" % (i, j, N, c))
     if worst <= 1e-9:
         o.check("frequency_term_exact_on_large_grid", True, measure=worst, tol=1e-9, n=len(idx))
+    o.stat("nontrivial", 1)
+    return o
+
+
+def _preempt_case(o, ps, fn):
+    """'a linear function of its own draws' while another screen of the same size is being generated: call B (other
+    draws, other r0) is run to completion at EVERY library line of call A (all two-thread schedules with one
+    preemption, mc/reentry.py); A's screen must be the screen of A's draws alone, B's that of B's"""
+    from mc.env import SeqGenerator
+    from mc import reentry
+    N, delta, L0, l0 = 8, 0.1, 25.0, 0.01
+    f = ps.ft_phase_screen if fn == "ft" else ps.ft_sh_phase_screen
+    nd = 2 * N * N + (54 if fn == "ftsh" else 0)
+    za = ((numpy.arange(nd) * 7) % 11 - 5.0) / 5.0
+    zb = ((numpy.arange(nd) * 5) % 13 - 6.0) / 3.0
+    A = lambda: numpy.asarray(f(0.2, N, delta, L0, l0, seed=SeqGenerator(za))).copy()
+    n_bad = n = 0
+    for other in (ps.ft_phase_screen, ps.ft_sh_phase_screen):
+        B = lambda: numpy.asarray(other(0.1, N, delta, L0, l0, seed=SeqGenerator(zb[:2 * N * N + (54 if other is ps.ft_sh_phase_screen else 0)]))).copy()
+        ra, rb = A(), B()
+        where_bad = []
+        for k, where, xa, xb in reentry.explore(A, B):
+            n += 1
+            if not (numpy.array_equal(xa, ra) and numpy.array_equal(xb, rb)):
+                where_bad.append(where)
+        o.check("own_draws_only_when_interleaved_with_another_call", not where_bad, sub="B=%s" % other.__name__,
+                detail=None if not where_bad else "differs when B runs at %s" % ", ".join(sorted(set(where_bad))[:8]), n=max(n, 1))
+    o.stat("schedules_explored", n)
+    o.stat("lib_calls", 2 * n)
     o.stat("nontrivial", 1)
     return o
 
